@@ -267,9 +267,13 @@ func (l *OpenFgaDslListener) EnterRelationDeclaration(_ *parser.RelationDeclarat
 	}
 
 	l.rewriteStack = []*stackRelation{}
+
+	verifTraceListener(l, "EnterRelDecl")
 }
 
 func (l *OpenFgaDslListener) ExitRelationDeclaration(ctx *parser.RelationDeclarationContext) {
+	verifTraceListener(l, "ExitRelDecl")
+
 	if ctx.RelationName() == nil {
 		return
 	}
@@ -306,12 +310,16 @@ func (l *OpenFgaDslListener) ExitRelationDeclaration(ctx *parser.RelationDeclara
 
 func (l *OpenFgaDslListener) EnterRelationDefDirectAssignment(_ *parser.RelationDefDirectAssignmentContext) {
 	l.currentRelation.TypeInfo = openfgav1.RelationTypeInfo{DirectlyRelatedUserTypes: []*openfgav1.RelationReference{}}
+
+	verifTraceListener(l, "EnterDirect")
 }
 
 func (l *OpenFgaDslListener) ExitRelationDefDirectAssignment(_ *parser.RelationDefDirectAssignmentContext) {
 	partialRewrite := &openfgav1.Userset{Userset: &openfgav1.Userset_This{This: &openfgav1.DirectUserset{}}}
 
 	l.currentRelation.Rewrites = append(l.currentRelation.Rewrites, partialRewrite)
+
+	verifTraceListener(l, "ExitDirect")
 }
 
 func (l *OpenFgaDslListener) ExitRelationDefTypeRestriction(ctx *parser.RelationDefTypeRestrictionContext) {
@@ -372,6 +380,8 @@ func (l *OpenFgaDslListener) ExitRelationDefRewrite(ctx *parser.RelationDefRewri
 	}
 
 	l.currentRelation.Rewrites = append(l.currentRelation.Rewrites, partialRewrite)
+
+	verifTraceListener(l, "ExitRewrite", computedUserset.GetRelation(), partialRewrite.GetTupleToUserset().GetTupleset().GetRelation())
 }
 
 func (l *OpenFgaDslListener) ExitRelationRecurse(_ *parser.RelationRecurseContext) {
@@ -384,6 +394,8 @@ func (l *OpenFgaDslListener) ExitRelationRecurse(_ *parser.RelationRecurseContex
 	if relationDef != nil {
 		l.currentRelation.Rewrites = []*openfgav1.Userset{relationDef}
 	}
+
+	verifTraceListener(l, "ExitRecurse")
 }
 
 func (l *OpenFgaDslListener) EnterRelationRecurseNoDirect(_ *parser.RelationRecurseNoDirectContext) {
@@ -395,6 +407,8 @@ func (l *OpenFgaDslListener) EnterRelationRecurseNoDirect(_ *parser.RelationRecu
 	}
 
 	l.currentRelation.Rewrites = []*openfgav1.Userset{}
+
+	verifTraceListener(l, "EnterRecurseND")
 }
 
 func (l *OpenFgaDslListener) ExitRelationRecurseNoDirect(_ *parser.RelationRecurseNoDirectContext) {
@@ -411,6 +425,8 @@ func (l *OpenFgaDslListener) ExitRelationRecurseNoDirect(_ *parser.RelationRecur
 		l.currentRelation.Operator = popped.Operator
 		l.currentRelation.Rewrites = append(popped.Rewrites, relationDef) //nolint:gocritic
 	}
+
+	verifTraceListener(l, "ExitRecurseND")
 }
 
 func (l *OpenFgaDslListener) EnterRelationDefPartials(ctx *parser.RelationDefPartialsContext) {
@@ -422,6 +438,8 @@ func (l *OpenFgaDslListener) EnterRelationDefPartials(ctx *parser.RelationDefPar
 	case (ctx.BUT_NOT() != nil):
 		l.currentRelation.Operator = RELATION_DEFINITION_OPERATOR_BUT_NOT
 	}
+
+	verifTraceListener(l, "EnterPartials", string(l.currentRelation.Operator))
 }
 
 //// Error Handling
